@@ -60,6 +60,18 @@ OpsViol(r) ==
      \* the accessors old_range() / new_range() / tag() / as_tag_tuple() show the same coordinates
      \cup (IF "acc" \in DOMAIN r /\ (r.acc # ops \/ r.acc2 # ops) THEN {"accessors"} ELSE {})
      \cup (IF r.rep_panic \/ ~PositionsExact(r.os, r.ns, r.ops_rep) THEN {"exact_rep"} ELSE {})
+     \* attribution of known finding KF-1: the shipped ops may differ from the ops obtained with
+     \* the swap repair on only in the carried index of a Delete (its new index) or of an Insert
+     \* (its old index); any other difference is not the known finding
+     \cup (IF ~r.rep_panic /\
+              ~(/\ Len(ops) = Len(r.ops_rep)
+                /\ \A i \in 1..Len(ops) :
+                     LET a == ops[i] b == r.ops_rep[i] IN
+                     /\ a[1] = b[1] /\ a[3] = b[3] /\ a[5] = b[5]
+                     /\ (a[1] \in {0, 3} => a = b)
+                     /\ (a[1] = 1 => a[2] = b[2])
+                     /\ (a[1] = 2 => a[4] = b[4]))
+           THEN {"not_kf1"} ELSE {})
      \cup (IF anchOk /\ nodl /\ r.alg = "patience"
               /\ CoveredUnique(r.old, r.new, r.os, r.oe, r.ns, r.ne, ops) < AnchorOptimum(oldR, newR)
            THEN {"anchors"} ELSE {})
